@@ -738,12 +738,14 @@ pub fn c10(ctx: &mut Ctx) -> (u64, String) {
     {
         let all: Vec<usize> = (0..N_LAYOUTS).collect();
         let deep = if ctx.thorough() { 2 } else { 1 };
-        // quick: every sequence of <= 2 Shift / CapsLock events between the two presses (the facts C10 is about);
+        // quick: every sequence of <= 2 Shift / CapsLock / NumLock / Pause-prefix events between the two presses;
         // thorough: every sequence of <= 2 of all 29 intermediate actions
         let inter: Vec<EvAct> = if ctx.thorough() {
             crate::props::events::family_intermediates()
         } else {
-            [KeyCode::LShift, KeyCode::RShift, KeyCode::CapsLock].iter().flat_map(|k| [EvAct::Key(*k, KeyState::Down), EvAct::Key(*k, KeyState::Up)]).collect()
+            // (the two Shift keys and CapsLock are what C10 is about; NumLock and the Pause prefix are there because the lock
+            // keys share code paths - a CapsLock press that disturbs NumLock changes what the numpad types)
+            [KeyCode::LShift, KeyCode::RShift, KeyCode::CapsLock, KeyCode::NumpadLock, KeyCode::RControl2].iter().flat_map(|k| [EvAct::Key(*k, KeyState::Down), EvAct::Key(*k, KeyState::Up)]).collect()
         };
         let _ = deep;
         decoder_family_with(ctx, "family:CapsLock through EventDecoder after short histories", &all, &|_l| ALL_KEYS.to_vec(), 2, inter, |l, k, m, mode, out| {
@@ -872,6 +874,127 @@ pub fn c11(ctx: &mut Ctx) -> (u64, String) {
 
 // ---- C12 ---------------------------------------------------------------------------------------
 
+fn c12_histories<D: KeyProc + Send>(ctx: &mut Ctx, levels: &[(&str, u16); 3], level_keys: &[Option<KeyCode>; 3], plain: &[KeyCode], hists: &[Vec<(KeyCode, KeyState)>], what: &str) {
+    let n_hists = hists.len();
+    {
+        let results = par_chunks(N_LAYOUTS * 2, |i| {
+
+            let l = i / 2;
+            let mode = MODES[i % 2];
+            let mut n = 0u64;
+            let mut bads: Vec<(usize, HandleControl, usize, char)> = vec![];
+            // witnesses from the table: char -> list of (key, level)
+            let mut wit: BTreeMap<char, Vec<(KeyCode, usize)>> = BTreeMap::new();
+            for k in plain {
+                for (li, (_, m)) in levels.iter().enumerate() {
+                    if let Ok(DecodedKey::Unicode(c)) = call(0, l, *k, &mods_from_bits(*m), mode) {
+                        if (' '..='~').contains(&c) {
+                            wit.entry(c).or_default().push((*k, li));
+                        }
+                    }
+                }
+            }
+            let tap = |d: &mut D, k: KeyCode, lev: usize| -> Result<Option<DecodedKey>, String> {
+                guarded(|| {
+                    if let Some(mk) = level_keys[lev] {
+                        let _ = d.pk(mk, KeyState::Down);
+                    }
+                    let r = d.pk(k, KeyState::Down);
+                    let _ = d.pk(k, KeyState::Up);
+                    if let Some(mk) = level_keys[lev] {
+                        let _ = d.pk(mk, KeyState::Up);
+                    }
+                    r
+                })
+            };
+            for (hi, h) in hists.iter().enumerate() {
+                let mut d0 = D::build(l, mode);
+                if guarded(|| {
+                    for (k, st) in h {
+                        let _ = d0.pk(*k, *st);
+                    }
+                })
+                .is_err()
+                {
+                    continue;
+                }
+                for (c, ws) in &wit {
+                    let mut found = false;
+                    for (wk, wl) in ws {
+                        let mut d = d0.clone();
+                        n += 1;
+                        if tap(&mut d, *wk, *wl) == Ok(Some(DecodedKey::Unicode(*c))) {
+                            found = true;
+                            break;
+                        }
+                    }
+                    if !found && bads.len() < 6 {
+                        bads.push((l, mode, hi, *c));
+                    }
+                }
+            }
+            (n, bads)
+        });
+        let mut n = 0;
+        for (c, bads) in results {
+            n += c;
+            for (l, mode, hi, ch) in bads {
+                let comp = D::comp(l, mode);
+                let mut ops: Vec<Op> = hists[hi].iter().map(|(k, st)| Op::Key(*k, *st)).collect();
+                let htext: Vec<String> = ops.iter().map(|o| o.text()).collect();
+                // then the table's first witness, to show what comes out instead
+                let w = ALL_KEYS.iter().flat_map(|k| (0..3).map(move |li| (*k, li))).find(|(k, li)| call(0, l, *k, &mods_from_bits(levels[*li].1), mode) == Ok(DecodedKey::Unicode(ch)));
+                if let Some((wk, wl)) = w {
+                    if let Some(mk) = level_keys[wl] {
+                        ops.push(Op::Key(mk, KeyState::Down));
+                    }
+                    ops.push(Op::Key(wk, KeyState::Down));
+                }
+                let obs = crate::replay::run_part(&comp, &ops).pop();
+                ctx.violation(
+                    &format!("{}/untypeable-after-history/{}/U+{:04X}", LAYOUT_NAMES[l], if what.starts_with("Key") { "kb" } else { "ed" }, ch as u32),
+                    &format!(
+                        "[via {}, mode {}] layout {}: after the history [{}] (every key released again) no key types {:?} at its unmodified, Shift or AltGr level any more, although the layout table has it",
+                        what, mode_name(mode), LAYOUT_NAMES[l], htext.join(", "), ch
+                    ),
+                    Replay::one(&comp, ops, &format!("Some(Unicode({:?}))", ch), obs),
+                );
+            }
+        }
+        ctx.evaluations += n;
+        ctx.part(&format!("search:every character right after every short chord history with all keys released ({}, both modes)", what), json!({"layouts": 10, "modes": 2, "histories_per_layout_and_mode": n_hists, "presses_tried": n}));
+    }
+}
+
+/// the two objects that turn key events into decoded keys: the bare event decoder and the whole Keyboard
+trait KeyProc: Clone {
+    fn build(l: usize, mode: HandleControl) -> Self;
+    fn pk(&mut self, k: KeyCode, s: KeyState) -> Option<DecodedKey>;
+    fn comp(l: usize, mode: HandleControl) -> String;
+}
+impl KeyProc for EventDecoder<Wrap> {
+    fn build(l: usize, mode: HandleControl) -> Self {
+        EventDecoder::new(Wrap(l as u8), mode)
+    }
+    fn pk(&mut self, k: KeyCode, s: KeyState) -> Option<DecodedKey> {
+        self.process_keyevent(KeyEvent::new(k, s))
+    }
+    fn comp(l: usize, mode: HandleControl) -> String {
+        format!("ed:wrap-{}:{}", LAYOUT_NAMES[l], mode_name(mode))
+    }
+}
+impl KeyProc for Keyboard<Wrap, ScancodeSet2> {
+    fn build(l: usize, mode: HandleControl) -> Self {
+        Keyboard::new(ScancodeSet2::new(), Wrap(l as u8), mode)
+    }
+    fn pk(&mut self, k: KeyCode, s: KeyState) -> Option<DecodedKey> {
+        self.process_keyevent(KeyEvent::new(k, s))
+    }
+    fn comp(l: usize, mode: HandleControl) -> String {
+        format!("kb:wrap-{}:set2:{}", LAYOUT_NAMES[l], mode_name(mode))
+    }
+}
+
 pub fn c12(ctx: &mut Ctx) -> (u64, String) {
     let levels: [(&str, u16); 3] = [("unmodified", M_NUM), ("left Shift", M_NUM | M_LSHIFT), ("AltGr", M_NUM | M_RALT)];
     let mut witnesses = 0u64;
@@ -990,91 +1113,9 @@ pub fn c12(ctx: &mut Ctx) -> (u64, String) {
         }
         hists.push(vec![(KeyCode::RControl2, KeyState::Down), (KeyCode::NumpadLock, KeyState::Down), (KeyCode::RControl2, KeyState::Up), (KeyCode::NumpadLock, KeyState::Up)]);
         let n_hists = hists.len();
-        let results = par_chunks(N_LAYOUTS * 2, |i| {
-            let l = i / 2;
-            let mode = MODES[i % 2];
-            let mut n = 0u64;
-            let mut bads: Vec<(usize, HandleControl, usize, char)> = vec![];
-            // witnesses from the table: char -> list of (key, level)
-            let mut wit: BTreeMap<char, Vec<(KeyCode, usize)>> = BTreeMap::new();
-            for k in &plain {
-                for (li, (_, m)) in levels.iter().enumerate() {
-                    if let Ok(DecodedKey::Unicode(c)) = call(0, l, *k, &mods_from_bits(*m), mode) {
-                        if (' '..='~').contains(&c) {
-                            wit.entry(c).or_default().push((*k, li));
-                        }
-                    }
-                }
-            }
-            let tap = |d: &mut EventDecoder<Wrap>, k: KeyCode, lev: usize| -> Result<Option<DecodedKey>, String> {
-                guarded(|| {
-                    if let Some(mk) = level_keys[lev] {
-                        let _ = d.process_keyevent(KeyEvent::new(mk, KeyState::Down));
-                    }
-                    let r = d.process_keyevent(KeyEvent::new(k, KeyState::Down));
-                    let _ = d.process_keyevent(KeyEvent::new(k, KeyState::Up));
-                    if let Some(mk) = level_keys[lev] {
-                        let _ = d.process_keyevent(KeyEvent::new(mk, KeyState::Up));
-                    }
-                    r
-                })
-            };
-            for (hi, h) in hists.iter().enumerate() {
-                let mut d0 = EventDecoder::new(Wrap(l as u8), mode);
-                if guarded(|| {
-                    for (k, st) in h {
-                        let _ = d0.process_keyevent(KeyEvent::new(*k, *st));
-                    }
-                })
-                .is_err()
-                {
-                    continue;
-                }
-                for (c, ws) in &wit {
-                    let mut found = false;
-                    for (wk, wl) in ws {
-                        let mut d = d0.clone();
-                        n += 1;
-                        if tap(&mut d, *wk, *wl) == Ok(Some(DecodedKey::Unicode(*c))) {
-                            found = true;
-                            break;
-                        }
-                    }
-                    if !found && bads.len() < 6 {
-                        bads.push((l, mode, hi, *c));
-                    }
-                }
-            }
-            (n, bads)
-        });
-        let mut n = 0;
-        for (c, bads) in results {
-            n += c;
-            for (l, mode, hi, ch) in bads {
-                let comp = format!("ed:wrap-{}:{}", LAYOUT_NAMES[l], mode_name(mode));
-                let mut ops: Vec<Op> = hists[hi].iter().map(|(k, st)| Op::Key(*k, *st)).collect();
-                let htext: Vec<String> = ops.iter().map(|o| o.text()).collect();
-                // then the table's first witness, to show what comes out instead
-                let w = ALL_KEYS.iter().flat_map(|k| (0..3).map(move |li| (*k, li))).find(|(k, li)| call(0, l, *k, &mods_from_bits(levels[*li].1), mode) == Ok(DecodedKey::Unicode(ch)));
-                if let Some((wk, wl)) = w {
-                    if let Some(mk) = level_keys[wl] {
-                        ops.push(Op::Key(mk, KeyState::Down));
-                    }
-                    ops.push(Op::Key(wk, KeyState::Down));
-                }
-                let obs = crate::replay::run_part(&comp, &ops).pop();
-                ctx.violation(
-                    &format!("{}/untypeable-after-history/U+{:04X}", LAYOUT_NAMES[l], ch as u32),
-                    &format!(
-                        "[via EventDecoder, mode {}] layout {}: after the history [{}] (every key released again) no key types {:?} at its unmodified, Shift or AltGr level any more, although the layout table has it",
-                        mode_name(mode), LAYOUT_NAMES[l], htext.join(", "), ch
-                    ),
-                    Replay::one(&comp, ops, &format!("Some(Unicode({:?}))", ch), obs),
-                );
-            }
-        }
-        ctx.evaluations += n;
-        ctx.part("search:every character right after every short chord history with all keys released (EventDecoder, both modes)", json!({"layouts": 10, "modes": 2, "histories_per_layout_and_mode": n_hists, "presses_tried": n}));
+        c12_histories::<EventDecoder<Wrap>>(ctx, &levels, &level_keys, &plain, &hists, "EventDecoder");
+        c12_histories::<Keyboard<Wrap, ScancodeSet2>>(ctx, &levels, &level_keys, &plain, &hists, "Keyboard::process_keyevent");
+        let _ = n_hists;
     }
     if ctx.thorough() {
         // each witness re-typed through EventDecoder by real key events
@@ -1370,11 +1411,16 @@ pub fn c17(ctx: &mut Ctx) -> (u64, String) {
 
     // change_layout over all ordered pairs on a real EventDecoder<AnyLayout> (both forms)
     let paths = mods_paths();
-    let probe_mods: Vec<u16> = if ctx.thorough() { (0..512u16).collect() } else { vec![M_NUM, M_NUM | M_LSHIFT, M_NUM | M_RALT, M_NUM | M_LCTRL, M_NUM | M_CAPS, 0] };
+    // quick tier: the plain states, each single modifier, and the usual layout-switch chords (Shift+Alt, Shift+Ctrl, ...)
+    let probe_mods: Vec<u16> = if ctx.thorough() {
+        (0..512u16).collect()
+    } else {
+        vec![M_NUM, M_NUM | M_LSHIFT, M_NUM | M_RALT, M_NUM | M_LCTRL, M_NUM | M_CAPS, 0, M_NUM | M_LSHIFT | M_LALT, M_NUM | M_LSHIFT | M_LCTRL, M_NUM | M_RSHIFT | M_RALT, M_NUM | M_RCTRL | M_RSHIFT, M_NUM | M_LCTRL | M_LALT]
+    };
     let mut n = 0u64;
     for from in 0..N_LAYOUTS {
         for to in 0..N_LAYOUTS {
-            for byref in [false, true] {
+            for (byref, cmode) in [(false, HandleControl::MapLettersToUnicode), (true, HandleControl::MapLettersToUnicode), (false, HandleControl::Ignore), (true, HandleControl::Ignore)] {
                 for m in &probe_mods {
                     macro_rules! body {
                         ($d:expr, $mk:expr, $spec:expr) => {{
@@ -1394,17 +1440,17 @@ pub fn c17(ctx: &mut Ctx) -> (u64, String) {
                                     continue;
                                 }
                                 let got = guarded(|| d.process_keyevent(KeyEvent::new(k, KeyState::Down)));
-                                let want = guarded(|| Some(map_direct(to, k, &mods_from_bits(*m), HandleControl::MapLettersToUnicode)));
+                                let want = guarded(|| Some(map_direct(to, k, &mods_from_bits(*m), cmode)));
                                 n += 1;
                                 if got != want {
                                     let (got, want) = (got.clone().unwrap_or(None), want.clone().unwrap_or(None));
-                                    let comp = format!("ed:{}-{}:Map", $spec, LAYOUT_NAMES[from]);
+                                    let comp = format!("ed:{}-{}:{}", $spec, LAYOUT_NAMES[from], mode_name(cmode));
                                     let mut ops: Vec<Op> = paths[*m as usize].iter().map(|(k, s)| Op::Key(*k, *s)).collect();
                                     ops.push(Op::Layout(to as u8));
                                     ops.push(Op::Key(k, KeyState::Down));
                                     ctx.violation(
                                         &format!("{}:switch/{}->{}/{}", $spec, LAYOUT_NAMES[from], LAYOUT_NAMES[to], key_name(k)),
-                                        &format!("EventDecoder<{}>: after change_layout from {} to {}, key {:?} with modifiers [{}] must give {} but gives {}", $spec, LAYOUT_NAMES[from], LAYOUT_NAMES[to], k, mods_text(*m), crate::replay::fmt_dk(&want), crate::replay::fmt_dk(&got)),
+                                        &format!("EventDecoder<{}> in mode {}: after change_layout from {} to {}, key {:?} with modifiers [{}] must give {} but gives {}", $spec, mode_name(cmode), LAYOUT_NAMES[from], LAYOUT_NAMES[to], k, mods_text(*m), crate::replay::fmt_dk(&want), crate::replay::fmt_dk(&got)),
                                         Replay::one(&comp, ops, &crate::replay::fmt_dk(&want), Some(crate::replay::fmt_dk(&got))),
                                     );
                                 }
@@ -1412,28 +1458,28 @@ pub fn c17(ctx: &mut Ctx) -> (u64, String) {
                         }};
                     }
                     if byref {
-                        body!(EventDecoder::new(any_static(from), HandleControl::MapLettersToUnicode), any_static(to), "anyref");
+                        body!(EventDecoder::new(any_static(from), cmode), any_static(to), "anyref");
                     } else {
-                        body!(EventDecoder::new(any_of(from), HandleControl::MapLettersToUnicode), any_of(to), "any");
+                        body!(EventDecoder::new(any_of(from), cmode), any_of(to), "any");
                     }
                 }
             }
         }
     }
     ctx.evaluations += n;
-    ctx.part("replay:change_layout over all 10x10 ordered pairs, both wrapper forms", json!({"modifier_states_probed": probe_mods.len(), "presses_checked": n}));
+    ctx.part("replay:change_layout over all 10x10 ordered pairs, both wrapper forms, both Ctrl modes", json!({"modifier_states_probed": probe_mods.len(), "presses_checked": n}));
     // chains of switches: from every variant, every sequence of 2 (and 3) further change_layout calls; the decoder must
     // answer as the LAST variant installed (a decoder that honours only the first switch, or that toggles, passes every
     // single-switch check)
     {
         let plain: Vec<KeyCode> = ALL_KEYS.iter().copied().filter(|k| !is_modifier_key(*k)).collect();
-        let chain_mods = [M_NUM, M_NUM | M_LSHIFT, M_NUM | M_RALT, M_NUM | M_LCTRL, M_NUM | M_CAPS, 0];
+        let chain_mods = [M_NUM, M_NUM | M_LSHIFT, M_NUM | M_RALT, M_NUM | M_LCTRL, M_NUM | M_CAPS, 0, M_NUM | M_LSHIFT | M_LALT, M_NUM | M_RCTRL | M_RSHIFT];
         let max_len = 3usize;
         let results = par_chunks(100, |pair| {
             let from = pair / 10;
             let b1 = pair % 10;
             let mut n = 0u64;
-            let mut bads: Vec<(bool, Vec<usize>, u16, KeyCode, String, String)> = vec![];
+            let mut bads: Vec<(bool, HandleControl, Vec<usize>, u16, KeyCode, String, String)> = vec![];
             let mut chains: Vec<Vec<usize>> = vec![];
             for b2 in 0..N_LAYOUTS {
                 chains.push(vec![b1, b2]);
@@ -1443,7 +1489,7 @@ pub fn c17(ctx: &mut Ctx) -> (u64, String) {
                     }
                 }
             }
-            for byref in [false, true] {
+            for (byref, cmode) in [(false, HandleControl::MapLettersToUnicode), (true, HandleControl::Ignore)] {
                 for ch in &chains {
                     let to = *ch.last().unwrap();
                     for m in chain_mods {
@@ -1463,22 +1509,22 @@ pub fn c17(ctx: &mut Ctx) -> (u64, String) {
                                         continue;
                                     }
                                     let got = guarded(|| d.process_keyevent(KeyEvent::new(*k, KeyState::Down)));
-                                    let want = guarded(|| Some(map_direct(to, *k, &mods_from_bits(m), HandleControl::MapLettersToUnicode)));
+                                    let want = guarded(|| Some(map_direct(to, *k, &mods_from_bits(m), cmode)));
                                     n += 1;
                                     if got != want && bads.len() < 3 {
                                         let f = |r: &Result<Option<DecodedKey>, String>| match r {
                                             Ok(v) => crate::replay::fmt_dk(v),
                                             Err(p) => p.clone(),
                                         };
-                                        bads.push((byref, ch.clone(), m, *k, f(&want), f(&got)));
+                                        bads.push((byref, cmode, ch.clone(), m, *k, f(&want), f(&got)));
                                     }
                                 }
                             }};
                         }
                         if byref {
-                            body!(EventDecoder::new(any_static(from), HandleControl::MapLettersToUnicode), any_static);
+                            body!(EventDecoder::new(any_static(from), cmode), any_static);
                         } else {
-                            body!(EventDecoder::new(any_of(from), HandleControl::MapLettersToUnicode), any_of);
+                            body!(EventDecoder::new(any_of(from), cmode), any_of);
                         }
                     }
                 }
@@ -1488,9 +1534,9 @@ pub fn c17(ctx: &mut Ctx) -> (u64, String) {
         let mut n = 0;
         for (from, c, bads) in results {
             n += c;
-            for (byref, ch, m, k, want, got) in bads {
+            for (byref, cmode, ch, m, k, want, got) in bads {
                 let spec = if byref { "anyref" } else { "any" };
-                let comp = format!("ed:{}-{}:Map", spec, LAYOUT_NAMES[from]);
+                let comp = format!("ed:{}-{}:{}", spec, LAYOUT_NAMES[from], mode_name(cmode));
                 let mut ops: Vec<Op> = paths[m as usize].iter().map(|(k, s)| Op::Key(*k, *s)).collect();
                 ops.extend(ch.iter().map(|l| Op::Layout(*l as u8)));
                 ops.push(Op::Key(k, KeyState::Down));
@@ -1503,7 +1549,7 @@ pub fn c17(ctx: &mut Ctx) -> (u64, String) {
             }
         }
         ctx.evaluations += n;
-        ctx.part("replay:chains of 2 and 3 change_layout calls from every variant, both wrapper forms", json!({"chains": 100 * (10 + 100), "modifier_states_probed": chain_mods.len(), "presses_checked": n}));
+        ctx.part("replay:chains of 2 and 3 change_layout calls from every variant, both wrapper forms", json!({"chains": 100 * (10 + 100), "modifier_states_probed": chain_mods.len(), "forms": "AnyLayout in Map mode, &AnyLayout in Ignore mode", "presses_checked": n}));
     }
     // histories X, Y, change_layout(to), X: the second X must be decoded by the new variant (a decoder that remembers
     // earlier look-ups must forget them all when the layout is switched)
